@@ -1698,7 +1698,7 @@ def remove_velocity_sinex(sinex):
         old_num_params = int(header[60:65])
         num_params = int(old_num_params / 2)
         header = header[:60] + '{:05d}'.format(num_params) + header[65:]
-        header = header.replace('V', '')
+        header = header[:67] + header[67:].replace(' V', '')
         out.write(header)
         out.write("\n")
         del header
